@@ -285,3 +285,17 @@ Theorem C19_code_IsSafePathComponent_is_model : forall name : list N,
   gen_IsSafePathComponent (zbytes name) = safe_component name.
 Proof. exact gen_IsSafePathComponent_is_model. Qed.
 Print Assumptions C19_code_IsSafePathComponent_is_model.
+
+(* ---- the check dominates the file operation, from the source: on EVERY path through the functions that turn a
+   client-supplied name into a path (ingest of every protocol, delete-index, lookup upload, both inputlookup paths,
+   the tags-tree flush, index mappings, the virtual-table file) the call that creates, opens or removes the file is
+   preceded by utils.IsSafePathComponent (call-order skeletons regenerated from /repo on every run, callees inlined:
+   rules C19.* of GenOrderCheck.co_rules; in delete-index: in the same iteration of the loop over the names).
+   Together with C19_code_IsSafePathComponent_is_the_model (what the check accepts) and the theorems above (an
+   accepted name stays inside the directory).  The skeleton drops data: that a refused name is not used is what
+   the harness observes. ---- *)
+From SigP Require GenOrderCheck GenOrderProofs.
+Theorem C19_code_checks_names_before_file_operations : forall r : GenOrderCheck.rule,
+  In r GenOrderCheck.c19_rules -> GenOrderCheck.rule_holds r.
+Proof. exact GenOrderProofs.co_C19_rules_hold. Qed.
+Print Assumptions C19_code_checks_names_before_file_operations.
